@@ -18,7 +18,8 @@ GUARD_NAME = re.compile(r"volatil|ref_?count|reference_count|num_references|sing
 
 
 def run(ctx):
-    return _rule_cte(ctx) + [rule_groupidx(ctx["facts"]), rule_matshare(ctx["facts"]), rule_marknull(ctx["facts"])]
+    return _rule_cte(ctx) + [rule_groupidx(ctx["facts"]), rule_matshare(ctx["facts"]), rule_marknull(ctx["facts"]),
+                             rule_existscnt(ctx["facts"]), rule_nullsafe(ctx["facts"]), rule_anycast(ctx["facts"])]
 
 
 def _rule_cte(ctx):
@@ -309,4 +310,102 @@ def rule_marknull(facts):
         if not ok:
             r.violate(fn.id, "mark-column-two-valued", "the LeftMark verdict column is written as a plain bool (matched / not matched) and never NULL: "
                       "`x NOT IN (subquery containing NULL)` keeps rows for which the SQL verdict is unknown", rec["file"], rec["line"])
+    return r
+
+
+SP = "glaredb_core::logical::planner::plan_subquery::SubqueryPlanner::"
+
+
+def _vec_elements(fn, op, at):
+    """operands of the `vec![..]` literal an operand comes from (None when it is not a vec literal)"""
+    o = fn.origin(op, at=at)
+    if o[0] != "call" or "box_assume_init_into_vec" not in o[1].name:
+        return None
+    for st in fn.rec["bbs"][o[1].bb]["s"]:
+        if st[0] == "a" and st[2][0] == "agg" and st[2][1] and st[2][1][0] == "array":
+            return [(e, o[1].bb) for e in st[2][2]]
+    return None
+
+
+def rule_existscnt(facts):
+    """EXISTS is about rows, not values. The uncorrelated form is planned as LIMIT 1 -> COUNT(..) -> count = 1; COUNT over a column of
+    the subquery skips NULLs, so `EXISTS (SELECT NULL)` would be false. The COUNT's argument must not be a column expression."""
+    r = RuleResult("C09-EXISTSCNT", "the COUNT that implements an uncorrelated EXISTS counts rows, not the values of a subquery column", floor=1)
+    rec = facts.fn(SP + "plan_uncorrelated")
+    if rec is None:
+        r.missing_anchor(SP + "plan_uncorrelated")
+        return r
+    fn = Fn(rec)
+    r.functions.add(fn.id)
+    for c in fn.calls():
+        if not c.name.endswith("expr::bind_aggregate_function") or "FUNCTION_SET_COUNT" not in str(fn.origin(c.args[0], at=c.bb)):
+            continue
+        elems = _vec_elements(fn, c.args[1], c.bb)
+        if elems is None:
+            r.missing_anchor("COUNT argument list in plan_uncorrelated is not a vec literal")
+            continue
+        bad = []
+        for e, bb in elems:
+            o = fn.origin(e, through_calls=("Into>::into", "From>::from"), at=bb)
+            if o[0] == "rv" and o[1][0] == "agg" and o[1][1][:3] == ["adt", "glaredb_core::expr::Expression", "Column"]:
+                bad.append("Expression::Column")
+            elif o[0] == "call" and o[1].name.endswith("expr::column"):
+                bad.append("expr::column")
+        r.call_sites += 1
+        r.inst({"fn": fn.id, "count_args": len(elems), "column_args": bad}, not bad)
+        if bad:
+            r.violate(fn.id, "exists-counts-column", "the COUNT behind an uncorrelated EXISTS takes a column of the subquery: NULLs are not counted, `EXISTS (SELECT NULL)` is false",
+                      rec["file"], c.line)
+    return r
+
+
+def rule_nullsafe(facts):
+    """Decorrelation hands the flattened side the DISTINCT outer values of the correlated columns (NULL included) and joins the result
+    back to the outer rows on those columns. With `=` an outer row whose correlated value is NULL never finds its own group; the
+    comparison has to be IS NOT DISTINCT FROM."""
+    r = RuleResult("C09-NULLSAFE", "the join that reunites outer rows with their decorrelated subquery result compares correlated columns null-safely", floor=2)
+    for name in ("plan_lateral_join", "plan_left_right_for_correlated"):
+        rec = facts.fn(SP + name)
+        if rec is None:
+            r.missing_anchor(SP + name)
+            continue
+        fn = Fn(rec)
+        r.functions.add(fn.id)
+        n = 0
+        for c in fn.calls():
+            if not c.name.endswith("expr::compare"):
+                continue
+            o = fn.origin(c.args[0], at=c.bb)
+            if not (o[0] == "rv" and o[1][0] == "agg" and o[1][1][0] == "adt" and o[1][1][1].endswith("ComparisonOperator")):
+                continue        # operator comes from the query (user join condition), not generated here
+            n += 1
+            op = o[1][1][2]
+            ok = op == "IsNotDistinctFrom"
+            r.call_sites += 1
+            r.inst({"fn": fn.id, "operator": op}, ok)
+            if not ok:
+                r.violate(fn.id, f"correlated-join:{op}", f"outer rows are joined back to the decorrelated subquery with {op}: a NULL correlated value matches nothing "
+                          "(`select (select coalesce(a.x, 0)) from a` is NULL for a.x NULL)", rec["file"], c.line)
+        if n == 0:
+            r.missing_anchor(f"{name}: no generated comparison on the correlated columns")
+    return r
+
+
+def rule_anycast(facts):
+    """`x IN (subquery)` compares x with the subquery's column; the comparison coerces both sides. Casting only x to the column's type
+    beforehand is lossy (2.5 IN (SELECT 2) became true) or fails (3000000000 IN (SELECT 5)). bind_subquery must not cast."""
+    r = RuleResult("C09-ANYCAST", "binding `expr op ANY (subquery)` does not cast the left expression to the subquery's column type", floor=1)
+    recs = facts.fns_matching(lambda i: i.endswith("ExpressionBinder::bind_subquery") or i.endswith("::bind_subquery"))
+    recs = [x for x in recs if "expr_binder" in x["id"]]
+    if not recs:
+        r.missing_anchor("expr_binder::*::bind_subquery")
+        return r
+    rec = recs[0]
+    fn = Fn(rec)
+    r.functions.add(fn.id)
+    casts = [c for c in fn.calls() if c.name == "glaredb_core::expr::cast" or c.name.endswith("CastExpr::new")]
+    r.inst({"fn": fn.id, "cast_calls": len(casts)}, not casts)
+    for c in casts:
+        r.violate(fn.id, "any-left-cast", "bind_subquery casts the left expression of ANY/IN to the subquery's output type instead of leaving the coercion to the comparison",
+                  rec["file"], c.line)
     return r
